@@ -215,7 +215,7 @@ def lower_body(body, cls=None, methods=(), members=(), objs=None, ptr_objs=None,
     b = _sub(log, 'R3 ns call', r'\b(Internals|Utils|Converters|Crypto)::(\w+)\s*(?:<\s*[\w:]+\s*>)?\s*\(', r'\1_\2(', b)
     # libtins idioms that are pure qualification
     b = _sub(log, 'R3 Constants enum cast', r'\(\s*Constants::\w+::e\s*\)', '(int)', b)
-    b = _sub(log, 'R3 PDU:: enumerator', r'\bPDU::([A-Z][A-Z0-9_]+)\b', r'PT_\1', b)
+    b = _sub(log, 'R3 PDU:: enumerator', r'\bPDU::(IPv6|ICMPv6|DHCPv6|[A-Z][A-Z0-9_]+)\b', r'PT_\1', b)
     # arity-overloaded free functions
     b = _rewrite_calls(b, r'\bInternals_pdu_from_flag\s*(?=\()',
                        lambda m, a: ('Internals_pdu_from_flag4(%s)' % a) if len(_split_args(a)) == 4 else None, log, 'R2 arity overload')
